@@ -5,7 +5,7 @@ HOOKS = {
     "guard": "verif",
     "enable": "go build -tags verif (the harness module /verif/harness replaces github.com/gopherjs/gopherjs by /repo)",
     "baseline_off_cmd": BASELINE_OFF,
-    "source_commits": [],
+    "source_commits": ["verif hook: expose the go/build context configured by goCtx (build/verif_hooks_c18.go)"],
     "add_only": True,
 }
 
@@ -21,6 +21,18 @@ NOTES = ("Every check: python3 run.py Cxx --tier quick|thorough. Lean theorems a
 NOT_APPLICABLE = {}
 
 CHECKS = {
+    "C18": {
+        "text": "Lean theorems: go/build's matchTag/goodOSArchFile/shouldBuild (transcribed), under the configuration GopherJS builds, "
+                "satisfy a tag iff it is in the documented set (js, ecmascript, gc, gopherjs, netgo, purego, math_big_pure_go, go1.1..go1.20) "
+                "or given with -tags, for every tag, expression and tag list; no later release tag; cgo never; std as js/wasm; a user tag "
+                "only affects expressions that mention it. The configuration facts are re-extracted from the code on every run and a "
+                "Lean obligation (decide) checks they equal the documented ones. Tied by importing generated package directories and "
+                "GOROOT packages through the real build context and comparing the selected files with the model.",
+        "note": "Trusted: Lean kernel; model of go/build's matcher is a transcription tied by differential runs; header parsing on the "
+                "harness side uses go/build/constraint; module resolution and go/build's comment-placement rules are not modelled; "
+                "post-load tweaks of runtime, runtime/pprof, sync, syscall/js are outside the corpus.",
+        "technique": "Lean 4 proof (matcher under extracted configuration = documented tag set) + regenerated facts obligation + differential correspondence",
+    },
     "C14": {
         "text": "Lean theorems: the prelude's $decodeRune/$encodeRune (transcribed) equal Unicode Table 3-7 + Go's U+FFFD rule for all "
                 "byte strings/positions/runes, decode∘encode round trip, range iteration = spec. Tied to prelude.js by running the real "
